@@ -43,6 +43,7 @@ pub struct World {
     pub owners: usize,
     pub owner_base: usize,
     pub leaked: usize,
+    pub zst_used: bool,
     pub ctl_base: usize,
     /// memory handed out as `&'static [u8]`; released after the last handle of the script is gone
     pub statics: Vec<*mut [u8]>,
@@ -83,9 +84,31 @@ fn blk(addr: usize, cap0: bool) -> String {
     }
 }
 
+/// A zero-sized owner (its counters are found through a global slot: one live at a time per script is enough).
+static ZST_SLOT: AtomicUsize = AtomicUsize::new(0);
+struct ZstOwner;
+impl AsRef<[u8]> for ZstOwner {
+    fn as_ref(&self) -> &[u8] {
+        ASREF[ZST_SLOT.load(Ordering::SeqCst)].fetch_add(1, Ordering::SeqCst);
+        // memory the ledger knows (allocated once, outside any tracked call, never freed)
+        static DATA: std::sync::OnceLock<&'static [u8]> = std::sync::OnceLock::new();
+        DATA.get_or_init(|| Box::leak(b"zst-own!".to_vec().into_boxed_slice()))
+    }
+}
+impl Drop for ZstOwner {
+    fn drop(&mut self) {
+        DROPPED[ZST_SLOT.load(Ordering::SeqCst)].fetch_add(1, Ordering::SeqCst);
+    }
+}
+
 impl World {
     pub fn new() -> World {
-        World { hs: Vec::with_capacity(64), owners: 0, owner_base: 0, leaked: 0, ctl_base: ledger::CTL_TRACKED_LIVE.load(Ordering::SeqCst), statics: Vec::new() }
+        World { hs: Vec::with_capacity(64), owners: 0, owner_base: 0, leaked: 0, zst_used: false, ctl_base: ledger::CTL_TRACKED_LIVE.load(Ordering::SeqCst), statics: Vec::new() }
+    }
+
+    /// the zero-sized owner's counters live in one global slot: at most one per script
+    pub fn has_zst_owner(&self) -> bool {
+        self.zst_used
     }
 
     fn b(&self, i: usize) -> Option<&Bytes> {
@@ -142,7 +165,7 @@ impl World {
         let bytes_arg = match name {
             "fromstatic" | "copy" | "owner" | "mfrom" | "collect" | "mcollect" => Some(unhex(w.get(1)?)?),
             "newvec" => Some(unhex(w.get(1)?)?),
-            "extend" | "extendit" | "extendref" | "putslice" => Some(unhex(w.get(2)?)?),
+            "extend" | "extendit" | "extendref" | "putslice" | "wstr" => Some(unhex(w.get(2)?)?),
             _ => None,
         };
         macro_rules! tracked {
@@ -192,6 +215,27 @@ impl World {
             "copy" => {
                 let bs = bytes_arg?;
                 let r = tracked!(Bytes::copy_from_slice(&bs));
+                self.push(r.map(H::B))
+            }
+            "ownerz" => {
+                if self.zst_used {
+                    return None;
+                }
+                self.zst_used = true;
+                let id = self.owner_base + self.owners;
+                self.owners += 1;
+                ASREF[id % MAX_OWNERS].store(0, Ordering::SeqCst);
+                DROPPED[id % MAX_OWNERS].store(0, Ordering::SeqCst);
+                ZST_SLOT.store(id % MAX_OWNERS, Ordering::SeqCst);
+                {
+                    // initialise the owner's memory outside the tracked region (and undo the as_ref count of this probe)
+                    let probe = ZstOwner;
+                    let _ = probe.as_ref().len();
+                    std::mem::forget(probe);
+                    ASREF[id % MAX_OWNERS].store(0, Ordering::SeqCst);
+                    DROPPED[id % MAX_OWNERS].store(0, Ordering::SeqCst);
+                }
+                let r = tracked!(Bytes::from_owner(ZstOwner));
                 self.push(r.map(H::B))
             }
             "owner" => {
@@ -418,6 +462,26 @@ impl World {
                     _ => tracked!(bytes::BufMut::put_slice(m, &bs)).map(|_| Out::Unit),
                 }
             }
+            // appends through fmt::Write
+            "wstr" | "wchar" => {
+                use std::fmt::Write as _;
+                let i = num(1)?;
+                let text: String = if name == "wstr" {
+                    String::from_utf8(bytes_arg?).ok()?
+                } else {
+                    char::from_u32(num(2)? as u32)?.to_string()
+                };
+                let m = match self.hs.get_mut(i)?.as_mut()? {
+                    H::M(m) => m,
+                    _ => return None,
+                };
+                if name == "wstr" {
+                    tracked!(m.write_str(&text).unwrap()).map(|_| Out::Unit)
+                } else {
+                    let ch = text.chars().next()?;
+                    tracked!(write!(m, "{}", ch).unwrap()).map(|_| Out::Unit)
+                }
+            }
             "resize" => {
                 let (i, n, b) = (num(1)?, num(2)?, num(3)?);
                 let m = match self.hs.get_mut(i)?.as_mut()? {
@@ -595,6 +659,7 @@ const SETUPS: &[(&str, &[&str])] = &[
     ("frozen-shared-grown", &["mcap 16", "extend 0 010203", "splitoff 0 8", "drop 1", "extend 0 0405060708", "freeze 0"]),
     ("mut-arc-offset", &["mcap 16", "extend 0 0102030405060708090a", "splitto 0 3"]),
     ("two-full", &["mzero 8", "mzero 8"]),
+    ("owner-zst", &["ownerz"]),
     ("mut-big-spare", &["mcap 4096", "extend 0 0102030405060708090a0b0c0d0e0f1011121314"]),
 ];
 
@@ -661,6 +726,10 @@ fn ops_for(w: &World, i: usize, rng: &mut Rng, boundary: bool) -> Vec<String> {
                 if *a <= cap + 70 || *a >= (1usize << 63) {
                     v.push(format!("putbytes {} 7 {}", i, a));
                 }
+            }
+            v.push(format!("wstr {} {}", i, hex("aé€😀".as_bytes())));
+            for cp in [0x41u32, 0x80, 0xe9, 0xff, 0x100, 0x800, 0x10000] {
+                v.push(format!("wchar {} {}", i, cp));
             }
             v.push(format!("extendit {} a1a2a3", i));
             v.push(format!("extendit {} {}", i, hex(&vec![0xb7u8; cap - len + 1])));
@@ -780,6 +849,12 @@ fn random_op(w: &World, rng: &mut Rng) -> String {
         let to = *rng.pick(&["extendit ", "extendref ", "putslice "]);
         return swap(&o, "extend ", to);
     }
+    if o.starts_with("extend ") && rng.chance(1, 8) {
+        // a single character through fmt::Write (every UTF-8 length class, incl. the Latin-1 range)
+        let i = o.split_whitespace().nth(1).unwrap_or("0").to_string();
+        let cp = *rng.pick(&[0x41u32, 0x7f, 0x80, 0xe9, 0xff, 0x100, 0x7ff, 0x800, 0xffff, 0x10000, 0x1f600]);
+        return format!("wchar {} {}", i, cp);
+    }
     if o.starts_with("copy ") && rng.chance(1, 3) {
         return swap(&o, "copy ", "collect ");
     }
@@ -804,7 +879,13 @@ fn random_op0(w: &World, rng: &mut Rng) -> String {
             0 => format!("fromstatic {}", bs),
             1 => format!("newvec {} {}", bs, n + rng.below(6) as usize),
             2 => format!("copy {}", bs),
-            3 => format!("owner {}{}", bs, if rng.chance(1, 8) { " panic" } else { "" }),
+            3 => {
+                if rng.chance(1, 6) && !w.has_zst_owner() {
+                    "ownerz".to_string()
+                } else {
+                    format!("owner {}{}", bs, if rng.chance(1, 8) { " panic" } else { "" })
+                }
+            }
             4 => format!("mcap {}", rng.below(40)),
             5 => format!("mfrom {}", bs),
             6 => format!("mzero {}", n),
